@@ -118,5 +118,22 @@ impl State {
 //@use coll.fns ::core_word_counter_j
 //@use coll.fns ::core_word_counter_k
 
+// bindings of the core word table (Rword)
+//@use corewords.fns State::load_core#w_insert
+//@use corewords.fns State::load_core#w_remove
+//@use corewords.fns State::load_core#w_I
+//@use corewords.fns State::load_core#w_J
+//@use corewords.fns State::load_core#w_K
+//@use corewords.fns State::load_core#w_length
+//@use corewords.fns State::load_core#w_nth
+//@use corewords.fns State::load_core#w_get
+//@use corewords.fns State::load_core#w_push
+//@use corewords.fns State::load_core#w_collect
+//@use corewords.fns State::load_core#w_tags
+//@use corewords.fns State::load_core#w_with_tags
+//@use corewords.fns State::load_core#w_insert_tag
+//@use corewords.fns State::load_core#w_remove_tag
+//@use corewords.fns State::load_core#w_get_tag
+
 } // verus!
 fn main() {}
